@@ -21,7 +21,7 @@ from __future__ import annotations
 import ast
 import itertools
 from types import SimpleNamespace
-from typing import Any, Dict, List, Optional, Set
+from typing import Any, Dict, List, Optional, Set, Tuple
 
 from engine.events import EventsDomain, EvState
 from engine.index import AnalysisError, Program, Unknown, unparse, walk_no_nested
@@ -377,6 +377,7 @@ def run(rep: Report, prog: Program, tier: str) -> None:
     pump_rule(rep, prog)
     start_eval_rule(rep, prog)
     tables_rule(rep, prog)
+    replay_rule(rep, prog)
 
 
 def pump_rule(rep: Report, prog: Program) -> None:
@@ -634,3 +635,51 @@ def tables_rule(rep: Report, prog: Program) -> None:
         else:
             rep.fail(mk_finding(prog, PROP, RULE, recv_f, n, f"application data is read with a {v}-byte buffer but _write_ssl() emits records of up to {biggest} bytes: a longer message arrives "
                                 "truncated and its tail is delivered as the start of the next one", construct="DTLS read size smaller than the record size written"))
+
+
+def replay_rule(rep: Report, prog: Program) -> None:
+    """C04-REPLAY: the inbound SRTP session must accept every packet the peer's outbound session may legitimately emit.  libsrtp rejects a packet whose index lies more
+    than `window_size` behind the newest one (default 128).  The peer (same code) re-sends sequence numbers as old as its history (RTP_HISTORY_SIZE) and its outbound
+    session is configured with its own window; the inbound policy's window has to cover both, otherwise authentic late / re-sent packets are silently dropped."""
+    RULE = "C04-REPLAY"
+    rep.rule(RULE, "the inbound SRTP policy's replay window covers the outbound policy's window and the retransmission history", min_instances=2)
+    fi = prog.func("rtcdtlstransport.RTCDtlsTransport._setup_srtp")
+    sessions: Dict[str, ast.AST] = {}
+    for n in walk_no_nested(fi.node):
+        if isinstance(n, ast.Assign) and isinstance(n.value, ast.Call) and unparse(n.value.func).split(".")[-1] == "Session" and n.value.args:
+            tgt = unparse(n.targets[0])
+            if tgt in ("self._rx_srtp", "self._tx_srtp"):
+                sessions[tgt] = n.value.args[0]
+    if set(sessions) != {"self._rx_srtp", "self._tx_srtp"}:
+        raise AnalysisError(f"{RULE}: the creation of the inbound / outbound SRTP sessions was not found in _setup_srtp")
+    DEFAULT = 128           # libsrtp: window_size 0 means the default of 128 packets
+
+    def window(arg: ast.AST) -> Tuple[int, Optional[ast.AST]]:
+        """window_size the policy handed to Session() carries: constructor keyword or attribute assignments on the policy variable (last one wins)"""
+        val, where = DEFAULT, None
+        ctor = arg
+        var = unparse(arg) if isinstance(arg, ast.Name) else None
+        for n in walk_no_nested(fi.node):
+            if var and isinstance(n, ast.Assign) and unparse(n.targets[0]) == var and isinstance(n.value, ast.Call):
+                ctor = n.value
+        if isinstance(ctor, ast.Call):
+            for k in ctor.keywords:
+                if k.arg == "window_size":
+                    val, where = Evaluator(prog, fi.module, None, {}).ev(k.value), k.value
+        if var:
+            for n in walk_no_nested(fi.node):
+                if isinstance(n, ast.Assign) and unparse(n.targets[0]) == f"{var}.window_size":
+                    val, where = Evaluator(prog, fi.module, None, {}).ev(n.value), n
+        return (val or DEFAULT), where
+    try:
+        rx, rx_at = window(sessions["self._rx_srtp"])
+        tx, _ = window(sessions["self._tx_srtp"])
+        hist = prog.const(prog.modules["rtp"], "RTP_HISTORY_SIZE")
+    except Unknown as ex:
+        raise AnalysisError(f"{RULE}: cannot evaluate a window size: {ex}")
+    for need, why in ((tx, "the outbound session's window (the peer runs the same code)"), (hist, "RTP_HISTORY_SIZE, the oldest sequence number a NACK can bring back")):
+        if rx >= need:
+            rep.ok(RULE, f"inbound window {rx} >= {need}", sample=why)
+        else:
+            rep.fail(mk_finding(prog, PROP, RULE, fi, rx_at or sessions["self._rx_srtp"], f"the inbound SRTP session accepts packets at most {rx} behind the newest one, but {why} is {need}: an authentic packet "
+                                f"that arrives later than that is dropped as a replay", construct=f"inbound replay window below {'the outbound window' if need == tx else 'the retransmission history'}"))
